@@ -271,6 +271,8 @@ def gen_setop(w, r, pure=False):
 
 def _idx(r, n):
     x = r.random()
+    if x < 0.03:
+        return r.choice(["x", None, 1.5])  # no index at all: the built-in raises TypeError and changes nothing
     if x < 0.7 and n:
         return r.randrange(-n, n)
     return r.choice([0, -1, n, n + 1, -n - 1, 5, -5])
